@@ -26,6 +26,7 @@ def plan(tier):
             {"fam": "smallints", "trace": "PackedTrace"},
             {"fam": "fenwick", "trace": "PackedTrace"},
             {"fam": "bitencbig", "trace": "PackedTrace"},
+            {"fam": "fenwickbig", "trace": "PackedTrace"},
         ],
         "required_obligations": ["mixed_signedness_type_pairs", "tlc_behaviours_replayed", "push_values_crosses_block_end",
                                  "push_values_inside_block", "push_values_overwide_value", "width_with_padding",
@@ -42,7 +43,8 @@ def plan(tier):
                 "SmallInts: 5 (S,B) type pairs, values around S::MIN/S::MAX, negative, big, and 7 wide pairs (u64/u128, "
                 "usize/u128, u32/u64, i32/i64, i64/i128, u16/u32, u8/u64) with values around every power-of-two width "
                 "boundary logged as decimal strings; Fenwick: sum/max, "
-                "lengths 1..100 incl. powers of two +-1, every/boundary index queried after every update",
+                "lengths 1..100 incl. powers of two +-1, every/boundary index queried after every update; "
+                "fenwickbig: SumBitTree<u8> of more than 2^32 (and 2^33) slots, positions as (i div 2^20, i mod 2^20)",
         "bounds": {"mc": "BitEnc B=8 widths 1..3(4) values incl. over-wide, all histories <=3(4) ops; SmallInts "
                          "S-range -4..3, 9 values, <=4(5) ops; Fenwick len<=6(8), <=3(4) updates; generation: B=32",
                    "impl": "BitEnc widths 1..8, histories <=12 ops, len <= ~150; SmallInts narrow pairs |v|<2^31, wide pairs up to u128::MAX"},
